@@ -136,10 +136,81 @@ class SStr(str):
         return seq
 
     def __format__(self, spec):
-        return str.__str__(self)
+        # f-strings are answered by fstr() (front-end rewrite); format()/str.format/%-formatting of a
+        # symbolic string would bake the placeholder into a real str
+        raise Unsupported("format() of a symbolic string")
+
+    def __str__(self):
+        return self
+
+    def __add__(self, o):
+        if isinstance(o, str):
+            return SStr(z3.Concat(self.term, sval(o)))
+        return NotImplemented
+
+    def __radd__(self, o):
+        if isinstance(o, str):
+            return SStr(z3.Concat(sval(o), self.term))
+        return NotImplemented
+
+    def __rmod__(self, fmt):
+        # "...%s..." % symbolic
+        if isinstance(fmt, str) and not has_symbolic(fmt) and fmt.count("%") == 1 and "%s" in fmt:
+            a, b = fmt.split("%s")
+            return SStr(z3.Concat(*[t for t in (z3.StringVal(a), self.term, z3.StringVal(b))]))
+        raise Unsupported("%-formatting with a symbolic string")
 
     def __repr__(self):
         return "SStr(%s)" % (self.term,)
+
+
+def _blocked(name):
+    def f(self, *a, **k):
+        raise Unsupported("str.%s on a symbolic string" % name)
+
+    f.__name__ = name
+    return f
+
+
+# every str method that is not modelled above would silently operate on the placeholder content
+for _n in dir(str):
+    if _n in SStr.__dict__:
+        continue
+    if not _n.startswith("_") or _n in ("__mod__", "__rmod__", "__mul__", "__rmul__", "__lt__", "__le__", "__gt__", "__ge__", "__iter__", "__contains__"):
+        setattr(SStr, _n, _blocked(_n))
+
+
+def fstr(parts):
+    """f-string evaluation (front-end rewrite of JoinedStr): parts are constants or
+    (value, conversion, format_spec) triples; Python's own rule format(conv(value), spec) for real
+    values, a symbolic concatenation as soon as one piece is a symbolic string"""
+    pieces, symbolic = [], False
+    for p in parts:
+        if isinstance(p, str):
+            pieces.append(p)
+            continue
+        v, conv, spec = p
+        if conv == "r":
+            if has_symbolic(v):
+                raise Unsupported("!r of a symbolic string")
+            v = repr(v)
+        elif conv == "a":
+            if has_symbolic(v):
+                raise Unsupported("!a of a symbolic string")
+            v = ascii(v)
+        elif conv == "s" and not isinstance(v, str):
+            v = str(v)
+        if isinstance(v, str) and has_symbolic(v):
+            if spec:
+                raise Unsupported("format spec on a symbolic string")
+            pieces.append(v if isinstance(v, SStr) else SStr(decode(v)))
+            symbolic = True
+        else:
+            pieces.append(format(v, spec))
+    if not symbolic:
+        return "".join(pieces)
+    ts = [sval(x) for x in pieces if isinstance(x, SStr) or x != ""]
+    return SStr(ts[0] if len(ts) == 1 else z3.Concat(*ts))
 
 
 # Python's float() grammar is not re-implemented: parsability and value are uninterpreted
@@ -195,13 +266,27 @@ class _ReModel:
         re.sub("[^CLASS]", repl, s)      every character outside CLASS replaced by repl (len(repl) == 1)"""
 
     def __getattr__(self, name):
-        return getattr(_real_re, name)
+        real = getattr(_real_re, name)
+        if not callable(real) or isinstance(real, type):
+            return real
+
+        def guarded(*a, **k):
+            if any(isinstance(x, str) and has_symbolic(x) for x in list(a) + list(k.values())):
+                raise Unsupported("re.%s on a symbolic string" % name)
+            return real(*a, **k)
+
+        return guarded
+
+    def compile(self, pattern, flags=0):  # noqa: A003
+        if has_symbolic(pattern):
+            raise Unsupported("re.compile of a symbolic pattern")
+        return _PatModel(self, pattern, flags)
 
     def match(self, pattern, s, flags=0):
         if not has_symbolic(s):
             return _real_re.match(pattern, s, flags)
-        m = _real_re.fullmatch(r"\^\[([^\]\^]+)\]", pattern)
-        if not m:
+        m = _real_re.fullmatch(r"\^?\[([^\]\^]+)\]", pattern)  # re.match anchors at the start with or without ^
+        if not m or flags:
             raise Unsupported("re.match pattern %r on a symbolic string" % pattern)
         cur().use("re.match on a single-character class")
         t = sval(s)
@@ -212,7 +297,7 @@ class _ReModel:
         if not has_symbolic(s):
             return _real_re.sub(pattern, repl, s, count, flags)
         m = _real_re.fullmatch(r"\[\^([^\]]+)\]", pattern)
-        if not m or len(repl) != 1 or count != 0:
+        if not m or has_symbolic(repl) or len(repl) != 1 or count != 0 or flags:
             raise Unsupported("re.sub pattern %r on a symbolic string" % pattern)
         c = cur()
         c.use("re.sub of a negated single-character class")
@@ -224,6 +309,38 @@ class _ReModel:
         c.add_fact("re.sub-pointwise", lambda i: alg.implies(alg.and_(alg.le(0, i), alg.lt(i, z3.Length(t))), char_at(r, i) == z3.If(z3.InRe(char_at(t, i), cls), char_at(t, i), rep)))
         out = SStr(r)
         return out
+
+
+class _PatModel:
+    """compiled pattern: the modelled operations go through the module-level model"""
+
+    def __init__(self, remod, pattern, flags):
+        self._re, self.pattern, self.flags = remod, pattern, flags
+        self._real = _real_re.compile(pattern, flags)
+
+    def match(self, s, *a):
+        if not has_symbolic(s):
+            return self._real.match(s, *a)
+        if a:
+            raise Unsupported("Pattern.match with pos on a symbolic string")
+        return self._re.match(self.pattern, s, self.flags)
+
+    def sub(self, repl, s, count=0):
+        if not has_symbolic(s) and not has_symbolic(repl):
+            return self._real.sub(repl, s, count)
+        return self._re.sub(self.pattern, repl, s, count, self.flags)
+
+    def __getattr__(self, name):
+        real = getattr(self._real, name)
+        if not callable(real):
+            return real
+
+        def guarded(*a, **k):
+            if any(isinstance(x, str) and has_symbolic(x) for x in list(a) + list(k.values())):
+                raise Unsupported("Pattern.%s on a symbolic string" % name)
+            return real(*a, **k)
+
+        return guarded
 
 
 RE = _ReModel()
